@@ -109,14 +109,23 @@ def run(ctx):
             m = np.array([[ctx.rng.randint(0, 1) for _ in range(Ns)] for _ in range(R)])
         ctx.count("ts_dist-" + shape)
         seed = ctx.rng.randint(0, 10**9)
-        r = guarded(irr.simulate_ts_dist, m, None, reps, True, seed, plus1)
-        r2 = guarded(irr.simulate_ts_dist, m, None, reps, False, seed, plus1)
-        det = {"call": "simulate_ts_dist", "ratings": m.tolist(), "num_perm": reps, "plus1": plus1, "seed": seed, "alternative": "greater"}
-        ctx.case(("tsd", tuple(map(tuple, m.tolist())), reps, plus1, seed), True); ctx.count("simulate_ts_dist")
+        # the reference value: the statistic of the ratings (None), or an override at / just above / well above / below it
+        ovr = ctx.rng.choice([None, None, "own", "own+", 0.9, 1.0, 0.0, 0.5])
+        if ovr in ("own", "own+"):
+            own_ = guarded(irr.compute_ts, m)
+            ovr = None if own_[0] != "ok" else (float(own_[1]) if ovr == "own" else float(np.nextafter(float(own_[1]), 2.0)))
+        ctx.count("ts_dist-reference-" + ("data" if ovr is None else "override"))
+        r = guarded(irr.simulate_ts_dist, m, ovr, reps, True, seed, plus1)
+        r2 = guarded(irr.simulate_ts_dist, m, ovr, reps, False, seed, plus1)
+        det = {"call": "simulate_ts_dist", "ratings": m.tolist(), "obs_ts": ovr, "num_perm": reps, "plus1": plus1, "seed": seed, "alternative": "greater"}
+        ctx.case(("tsd", tuple(map(tuple, m.tolist())), reps, plus1, seed, ovr), True); ctx.count("simulate_ts_dist")
         if r[0] != "ok" or r2[0] != "ok":
             det.update({"issue": "call failed", "returned": [r[1:], r2[1:]]}); ctx.violation("oracle", det, site="simulate_ts_dist"); continue
         res = r[1]; dist = [F(v) for v in res["dist"]]; obs = F(res["obs_ts"])
         want = expected_p("greater", plus1, reps, dist, obs)
+        if ovr is not None and float(res["obs_ts"]) != float(ovr):
+            det.update({"issue": "the supplied obs_ts is not the reference value that is returned and compared against", "returned_obs_ts": float(res["obs_ts"])})
+            ctx.violation("oracle", det, site="simulate_ts_dist"); continue
         if len(dist) != reps or not close(res["pvalue"], want, rel=1e-12) or int(res["geq"]) != sum(1 for v in dist if v >= obs) \
                 or r2[1]["pvalue"] != res["pvalue"] or int(r2[1]["geq"]) != int(res["geq"]):
             det.update({"issue": "pvalue / geq inconsistent with the returned dist, or keep_dist changes them", "returned": {k: (v.tolist() if hasattr(v, 'tolist') else v) for k, v in res.items()}})
